@@ -615,6 +615,15 @@ func (fc *funcContext) StartLocalVarsHere(n int) {
 	}
 }
 
+// EndLocalVarsHere makes the scope of the given DbgLocals entries end after the last
+// emitted instruction (the hidden variables of a for loop outlive the block of the declared
+// ones: they are still in scope at the loop instruction, lparser.c forbody).
+func (fc *funcContext) EndLocalVarsHere(indices []int) {
+	for _, i := range indices {
+		fc.Proto.DbgLocals[i].EndPc = fc.Code.LastPC() + 1
+	}
+}
+
 func (fc *funcContext) FindLocalVarAndBlock(name string) (int, *codeBlock) {
 	for block := fc.Block; block != nil; block = block.Parent {
 		if index := block.LocalVars.Find(name); index > -1 {
@@ -1211,6 +1220,7 @@ func compileNumberForStmt(context *funcContext, stmt *ast.NumberForStmt) { // {{
 	bodypc := code.LastPC()
 	compileChunk(context, stmt.Stmts, false)
 
+	hidden := append([]int(nil), context.Block.dbgLocals[:3]...)
 	context.LeaveBlock()
 
 	flpc := code.LastPC()
@@ -1218,6 +1228,7 @@ func compileNumberForStmt(context *funcContext, stmt *ast.NumberForStmt) { // {{
 		raiseCompileError(context, sline(stmt), "control structure too long")
 	}
 	code.AddASbx(OP_FORLOOP, rindex, bodypc-(flpc+1), sline(stmt))
+	context.EndLocalVarsHere(hidden)
 
 	context.SetLabelPc(endlabel, code.LastPC())
 	code.SetSbx(bodypc, flpc-bodypc)
@@ -1248,11 +1259,13 @@ func compileGenericForStmt(context *funcContext, stmt *ast.GenericForStmt) { // 
 	context.SetLabelPc(bodylabel, code.LastPC())
 	compileChunk(context, stmt.Stmts, false)
 
+	hidden := append([]int(nil), context.Block.dbgLocals[:3]...)
 	context.LeaveBlock()
 
 	context.SetLabelPc(fllabel, code.LastPC())
 	code.AddABC(OP_TFORLOOP, rgen, 0, nnames, sline(stmt))
 	code.AddASbx(OP_JMP, 0, bodylabel, sline(stmt))
+	context.EndLocalVarsHere(hidden)
 
 	context.SetLabelPc(endlabel, code.LastPC())
 } // }}}
